@@ -191,3 +191,39 @@ func init() {
 		verifScenario{"C03/interp.Interpreter.cfg/case:returnStmt/*", rejectedC("func f() int8 { return 200 }\nfunc g() int { return 1.5 }\nfunc h() uint { return -1 }\nfunc main() { println(f(), g(), h()) }")},
 	)
 }
+
+func init() {
+	// C03: real / imag of an untyped complex constant; && and || of boolean constants
+	verifProtocolScenarios = append(verifProtocolScenarios,
+		verifScenario{"C03/interp.realConst/*", func() (observed bool, detail string) {
+			defer func() {
+				if r := recover(); r != nil {
+					observed, detail = true, fmt.Sprintf("Eval panicked: %v", r)
+				}
+			}()
+			out, err := verifOutput("package main\nimport \"fmt\"\nconst c = 2 + 3i\nconst r = real(c)\nfunc main() { fmt.Println(r, real(2+3i)) }")
+			want := "2 2\n"
+			return out != want || err != nil, fmt.Sprintf("output %q (err %v), compiled Go prints %q", out, err, want)
+		}},
+		verifScenario{"C03/interp.imagConst/*", func() (observed bool, detail string) {
+			defer func() {
+				if r := recover(); r != nil {
+					observed, detail = true, fmt.Sprintf("Eval panicked: %v", r)
+				}
+			}()
+			out, err := verifOutput("package main\nimport \"fmt\"\nconst c = 2 + 3i\nconst i = imag(c)\nfunc main() { fmt.Println(i, imag(2+3i)) }")
+			want := "3 3\n"
+			return out != want || err != nil, fmt.Sprintf("output %q (err %v), compiled Go prints %q", out, err, want)
+		}},
+		verifScenario{"C03/interp.Interpreter.cfg/case:landExpr/*", func() (bool, string) {
+			out, err := verifOutput("package main\nimport \"fmt\"\nconst a = 1 < 2 && 2 < 3\nconst b = true && false\nfunc main() { if a { fmt.Print(\"in \") }; fmt.Println(a, b) }")
+			want := "in true false\n"
+			return out != want || err != nil, fmt.Sprintf("output %q (err %v), compiled Go prints %q", out, err, want)
+		}},
+		verifScenario{"C03/interp.Interpreter.cfg/case:lorExpr/*", func() (bool, string) {
+			out, err := verifOutput("package main\nimport \"fmt\"\nconst b = true && false\nconst d = b || true\nfunc main() { fmt.Println(b, d) }")
+			want := "false true\n"
+			return out != want || err != nil, fmt.Sprintf("output %q (err %v), compiled Go prints %q", out, err, want)
+		}},
+	)
+}
